@@ -285,6 +285,9 @@ var seqCorpus = [][]string{
 	// WithElements: condition, setup returning nil, element added and deleted by one Apply, second unsubscribe call
 	{"newsetx 1,2", "withelements 0 0", "withelements 1 1", "add 3", "apply 4,5 4", "withelements 2 2", "replace 2,3,5", "del 2", "unsub 1",
 		"unsub 1", "toggle 1", "compute 0,2 1", "unsub 0", "add 4", "state"},
+	// LogUpdates: level inactive at first, activated on a non-zero value, deactivated, unsubscribed; with a stringer
+	{"newvarx", "log 0 0", "set 3", "level 0 1", "set 4", "log 1 1", "set 0", "level 0 0", "set 2", "level 0 1", "unsub 0", "level 0 1", "set 1",
+		"unsub 1", "set 3", "state"},
 	// DESIGN.md section 7: Replace({2,3}) on {1,2} with a folding subscriber
 	{"newset 1,2", "sub 0", "replace 2,3", "state"},
 	// 2^32-1 calls without effect between two changes: the id of the second change must still differ from the first
